@@ -76,6 +76,7 @@ fn render(elems: &[KP], rng: &mut Rng, spacing: bool) -> String {
 }
 
 fn check_intended(ctx: &mut Ctx, elems: &[KP], text: &str) {
+    ctx.evals += 1;
     ctx.count("renderings");
     let info = || format!("text={:?} intended={:?}", text, elems);
     let tag = if elems.iter().any(|e| matches!(e, KP::Quoted(n) if n.is_empty())) { "empty-quoted-name" } else { "plain" };
@@ -113,6 +114,7 @@ fn check_intended(ctx: &mut Ctx, elems: &[KP], text: &str) {
 }
 
 fn totality(ctx: &mut Ctx, raw: &[u8], class: &str, must_reject: bool) {
+    ctx.evals += 1;
     ctx.count(&format!("raw.{}", class));
     let info = || format!("class={} input={:?} bytes={}", class, lossy(raw), hex(raw));
     match guard(|| parse_key_paths(raw).map(|k| format!("{:?}", k)).map_err(|_| ())) {
